@@ -93,3 +93,70 @@ Theorem C12_nnchain_total : forall (T : Type) (K : kops T) (p : profile) (meth :
   (exists r, nnchain_with K p meth s d m n = Ok r) \/ nnchain_with K p meth s d m n = Panic PNaN.
 Proof. exact nnchain_total. Qed.
 Print Assumptions C12_nnchain_total.
+
+(* ---- the generic algorithm (what linkage runs for centroid / median) and its
+   binary heap (src/queue.rs) ----
+   Heap: on a heap whose position map is the inverse of its array, every
+   operation on a contained observation returns (no index panic, no failed
+   `removed` assertion, the sift loops stay within their fuel) and keeps that
+   invariant and the heap order. *)
+Require Import KV.Model.Heap KV.Model.Generic KV.Proofs.RelabelWF KV.Proofs.HeapInv KV.Proofs.GenericInv KV.Proofs.GenericInstances.
+
+Theorem C12_heap_pop : forall (T : Type) (ltb : T -> T -> bool) (n : nat) (h : heap T),
+  HInv n h -> length (h_heap h) <> 0 ->
+  exists first h', nth_error (h_heap h) 0 = Some first /\ h_pop ltb h = Ok (Some first, h') /\ HInv n h'
+    /\ h_prio h' = h_prio h
+    /\ length (h_heap h') = length (h_heap h) - 1
+    /\ (forall x, inh h' x <-> inh h x /\ x <> first)
+    /\ (forall x, x <> first -> nth_error (h_removed h') x = nth_error (h_removed h) x).
+Proof. exact pop_spec. Qed.
+Print Assumptions C12_heap_pop.
+
+Theorem C12_heap_set_priority : forall (T : Type) (ltb : T -> T -> bool) (n : nat) (h : heap T) (o : nat) (v : T),
+  HInv n h -> inh h o ->
+  exists h', h_set_priority ltb h o v = Ok h' /\ HInv n h'
+    /\ h_prio h' = set_nth (h_prio h) o v /\ h_removed h' = h_removed h
+    /\ length (h_heap h') = length (h_heap h) /\ (forall x, inh h' x <-> inh h x).
+Proof. exact set_priority_spec. Qed.
+Print Assumptions C12_heap_set_priority.
+
+(* generic_with, under a strict weak order, a reflexive `==`, and an update
+   formula that keeps values below the max_value sentinel (no overflow): on
+   every well-formed input whose entries are below max_value it returns a
+   well-formed dendrogram or the NaN panic - the repair loop terminates within
+   its fuel, the popped cluster is never the last one, its candidate is a live
+   partner above it *)
+Theorem C12_generic_total_wf : forall (T : Type) (K : kops T) (p : profile) (meth : method),
+  (forall a, k_ltb K a a = false) ->
+  (forall a b c, k_ltb K a b = true -> k_ltb K b c = true -> k_ltb K a c = true) ->
+  (forall a b c, k_ltb K a b = false -> k_ltb K b c = false -> k_ltb K a c = false) ->
+  (forall a, k_eqb K a a = true) ->
+  (forall va vb md sa sb sx, k_ltb K va (k_max K) = true -> k_ltb K vb (k_max K) = true -> k_ltb K md (k_max K) = true ->
+     k_ltb K (k_upd K va vb md sa sb sx) (k_max K) = true) ->
+  forall s d (m : list T) (n : N),
+  (n < two32)%N -> wf_shape n (N.of_nat (length m)) ->
+  Forall (fun v => k_ltb K v (k_max K) = true) (square_all K m) ->
+  (exists s' d' m', generic_with K p meth s d m n = Ok (s', d', m') /\ wf_dend (d_obs d') (d_steps d'))
+  \/ generic_with K p meth s d m n = Panic PNaN.
+Proof. exact generic_total_wf. Qed.
+Print Assumptions C12_generic_total_wf.
+
+(* all five entry points with single / complete on the float carriers: NaN-free
+   input with entries below f64::MAX / f32::MAX *)
+Theorem C12_selection_total_all_f64 : forall (p : profile) (a : algo) (meth : method) s d (m : list PrimFloat.float) (n : N),
+  meth = Single \/ meth = Complete ->
+  (n < two32)%N -> wf_shape n (N.of_nat (length m)) ->
+  Forall (fun v => PrimFloat.ltb v (f_max F64) = true) m ->
+  (exists s' d' m', run_with F64 p a meth s d m n = Ok (s', d', m') /\ wf_dend (d_obs d') (d_steps d'))
+  \/ run_with F64 p a meth s d m n = Panic PNaN.
+Proof. exact selection_total_wf_all_f64. Qed.
+Print Assumptions C12_selection_total_all_f64.
+
+Theorem C12_selection_total_all_f32 : forall (p : profile) (a : algo) (meth : method) s d (m : list f32) (n : N),
+  meth = Single \/ meth = Complete ->
+  (n < two32)%N -> wf_shape n (N.of_nat (length m)) ->
+  Forall (fun v => Flocq.IEEE754.BinarySingleNaN.Bltb v (f_max F32) = true) m ->
+  (exists s' d' m', run_with F32 p a meth s d m n = Ok (s', d', m') /\ wf_dend (d_obs d') (d_steps d'))
+  \/ run_with F32 p a meth s d m n = Panic PNaN.
+Proof. exact selection_total_wf_all_f32. Qed.
+Print Assumptions C12_selection_total_all_f32.
